@@ -177,6 +177,11 @@ def _py_ctx(d) -> str:
 
 
 def py_side(side) -> str:
+    if "at" in side:
+        s = f"<table after {side['at']} events> >> pdt.alias()"
+        for e in side.get("hist", []):
+            s += " >> " + py_event(e)
+        return s
     s = side["src"]
     if side.get("alias"):
         s += " >> pdt.alias()"
